@@ -35,7 +35,10 @@ func VerifyIndex(ctx context.Context, name string, idx Index, n int, pb Progress
 		}
 		defer f.Close()
 		g.Go(func() error {
+			defer verifYield("pl.exit")
+			verifYield("pl.idle")
 			for c := range in {
+				verifYield("pl.job", "first", c[0].Start, "n", len(c))
 				// Reuse the fileSeedSegment structure, this is really just a seed segment after all
 				segment := newFileSeedSegment(name, c, false)
 				if err := segment.Validate(f); err != nil {
@@ -44,6 +47,7 @@ func VerifyIndex(ctx context.Context, name string, idx Index, n int, pb Progress
 
 				// Update progress bar, if any
 				pb.Add(len(c))
+				verifYield("pl.idle")
 			}
 			return nil
 		})
@@ -67,12 +71,15 @@ loop:
 			// We reached the end of the array
 			last = chunksNum - 1
 		}
+		verifYield("pl.feed", "first", i, "last", last)
 		select {
 		case <-ctx.Done():
+			verifYield("pl.leave")
 			break loop
 		case in <- idx.Chunks[i : last+1]:
 		}
 	}
+	verifYield("pl.close")
 	close(in)
 
 	return g.Wait()
